@@ -57,15 +57,17 @@ theorem bd3_notDot {k : Nat} {x : List Tok} (h : Bd3 d k x = true) : searchStr x
   TS.stops_notDot (TS.bd_stops (b3 h))
 
 /-! ### the keyword dispatch of `pStatement` -/
-/-- what `pStatement` does when the first word opens none of the keyword-introduced statements: WITH, then SELECT / INSERT / UPDATE -/
+/-- what `pStatement` does after the WITH clause: SELECT / INSERT / UPDATE -/
+def stmtBody (d : Gen.D) (f : Nat) (withs : List WithTable) (r : List Tok) : R Stmt :=
+  if searchStrUp r "SELECT" then (match pSelectStmt d f (some withs) r with | .ok (q, r1) => .ok (.select q, r1) | .error e => .error e)
+  else if searchStrUp r "INSERT" then pInsert d f (some withs) r
+  else if searchStrUp r "UPDATE" then pUpdate d f (some withs) r
+  else .error .parse
+/-- what `pStatement` does when the first word opens none of the keyword-introduced statements: WITH, then the body -/
 def stmtTail (d : Gen.D) (f : Nat) (ts : List Tok) : R Stmt :=
   match pWith d f ts with
   | .error e => .error e
-  | .ok (withs, r) =>
-    if searchStrUp r "SELECT" then (match pSelectStmt d f (some withs) r with | .ok (q, r1) => .ok (.select q, r1) | .error e => .error e)
-    else if searchStrUp r "INSERT" then pInsert d f (some withs) r
-    else if searchStrUp r "UPDATE" then pUpdate d f (some withs) r
-    else .error .parse
+  | .ok (withs, r) => stmtBody d f withs r
 theorem stmt_dispatch (t : Tok) (w : String) (hw : up t.src = w)
     (hne : ["SET", "DELETE", "DROP", "CREATE", "ANALYZE", "ALTER", "MSCK", "USE", "TRUNCATE", "SHOW"].contains w = false)
     (x : List Tok) (f : Nat) : pStatement d f (t :: x) = stmtTail d f (t :: x) := by
@@ -83,7 +85,7 @@ theorem stmt_dispatch (t : Tok) (w : String) (hw : up t.src = w)
     rcases x with _ | ⟨y, _ | ⟨z, r⟩⟩ <;> simp [searchThreeUp, k a ha]
   simp only [List.contains_cons, List.contains_nil, Bool.or_false, Bool.or_eq_false_iff, beq_eq_false_iff_ne, ne_eq] at hne
   obtain ⟨h1, h2, h3, h4, h5, h6, h7, h8, h9, h10⟩ := hne
-  unfold pStatement stmtTail
+  unfold pStatement stmtTail stmtBody
   simp only [s1 "SET" (Ne.symm h1), s2 "DELETE" "FROM" (Ne.symm h2), s2 "DROP" "TABLE" (Ne.symm h3), s2 "CREATE" "TABLE" (Ne.symm h4),
     s2 "ANALYZE" "TABLE" (Ne.symm h5), s2 "ALTER" "TABLE" (Ne.symm h6), s3 "MSCK" "REPAIR" "TABLE" (Ne.symm h7), s1 "USE" (Ne.symm h8),
     s2 "TRUNCATE" "TABLE" (Ne.symm h9), s2 "SHOW" "DATABASES" (Ne.symm h10), s2 "SHOW" "TABLES" (Ne.symm h10), s2 "SHOW" "COLUMNS" (Ne.symm h10),
